@@ -25,6 +25,8 @@ func init() {
 func runC10(p *Prog, r *Report) {
 	r.Min("C10.R1", 6)
 	r.Min("C10.R5", 6)
+	checkNoGlobalWrites(p, r, "C10.R4", "pkg/scan/elastic", "pkg/scan/docker")
+	checkTransportKnobs(p, r)
 	checkRenderTotal(p, r)
 	r.Min("C10.R2", 1)
 	r.Min("C10.R3", 6)
@@ -639,5 +641,52 @@ func checkRenderTotal(p *Prog, r *Report) {
 			sort.Strings(bad)
 			r.Check(len(bad) == 0, "C10.R5", FuncName(fn)+"/total", p.Pos(fn.Pos()), "rendering a record cannot panic on server-controlled data (no unchecked type assertion, no indexing)", strings.Join(bad, "; "))
 		}
+	}
+}
+
+// checkTransportKnobs (R4, addition): whether an endpoint is reported depends only on the documented
+// criteria - not on response limits of the HTTP client. The probes' transports and clients set only the
+// reviewed fields; any other knob (MaxResponseHeaderBytes, ReadBufferSize, ResponseHeaderTimeout, a client
+// Timeout, a redirect policy ...) changes which answers count as success and needs a rule of its own.
+func checkTransportKnobs(p *Prog, r *Report) {
+	reviewed := map[string]map[string]bool{
+		"*net/http.Transport": {"MaxConnsPerHost": true, "DisableKeepAlives": true, "TLSClientConfig": true},
+		"*net/http.Client":    {"Transport": true},
+		"*crypto/tls.Config":  {"InsecureSkipVerify": true},
+	}
+	n := 0
+	for _, fn := range p.SrcFuncs() {
+		if fn.Pkg != p.SPkg("pkg/scan/elastic") && fn.Pkg != p.SPkg("pkg/scan/docker") {
+			continue
+		}
+		for _, b := range fn.Blocks {
+			for _, in := range b.Instrs {
+				a, ok := in.(*ssa.Alloc)
+				if !ok {
+					continue
+				}
+				allowed, isCfg := reviewed[types.TypeString(a.Type(), nil)]
+				if !isCfg {
+					continue
+				}
+				n++
+				var extra []string
+				for _, ref := range *a.Referrers() {
+					if fa, isFA := ref.(*ssa.FieldAddr); isFA {
+						f := fieldName(fa.X.Type(), fa.Field)
+						for _, r2 := range *fa.Referrers() {
+							if _, isSt := r2.(*ssa.Store); isSt && !allowed[f] {
+								extra = append(extra, f)
+							}
+						}
+					}
+				}
+				sort.Strings(extra)
+				r.Check(len(extra) == 0, "C10.R4", fmt.Sprintf("%s/%s-settings", FuncName(fn), strings.TrimPrefix(types.TypeString(a.Type(), nil), "*")), p.Pos(a.Pos()), "the probe's HTTP configuration sets only the reviewed fields (no response limit or policy that changes which answers succeed)", "also sets: "+strings.Join(extra, ", "))
+			}
+		}
+	}
+	if n < 4 {
+		r.Viol("C10.R4", "http configuration", "-", "transports, clients and TLS configurations of both probes are found", fmt.Sprint(n))
 	}
 }
